@@ -68,14 +68,17 @@ def me_props(_tc):
 # quick: every type code; all 8 values of ME bits 6-8 where they select a variant or an enum
 # (19 subtype, 28 subtype, 29 subtype/SIL, 31 subtype), two corner values elsewhere.
 # thorough: all 256 values of the first payload byte.
-QMASK = {19: 0x2b, 28: 0x27, 29: 0x0d, 31: 0x87, 11: 0xa5, 5: 0x21, 0: 0x21, 4: 0x21, 24: 0x01, 20: 0x01}
+# quick: one harness per (type code, value of ME bits 6-8) so that they run side by side; the
+# values cover every variant / enum selected by those bits.  thorough: all remaining values.
+QVALS = {0: (0,), 4: (0, 5), 5: (0,), 11: (0, 5), 19: (0, 1, 3, 5), 20: (0,), 24: (0,), 28: (0, 1, 2, 5), 29: (0, 2, 3), 31: (0, 1, 2, 7)}
 for _tc in range(32):
-    _qmask = QMASK.get(_tc, 0)
-    if _qmask:
-        add("me_tc%02d" % _tc, "adsb_deku", F + "obl_me", args="%d, 0x%02x" % (_tc, _qmask), props=me_props(_tc),
-            unwind=10, domain="ME type code %d x ME bits 6-8 in mask 0x%02x x all 2^48 remaining ME bits x 2^24 trailer" % (_tc, _qmask),
-            functions=["adsb::ME::from_reader_with_ctx (real derive expansion)"], timeout=1500, kani_flags=FAST,
-            features=("std", "alloc") if _tc in (0, 11) else ("std",))
+    _q = QVALS.get(_tc, ())
+    _qmask = 0
+    for _v in _q:
+        _qmask |= 1 << _v
+        add("me_tc%02d_%d" % (_tc, _v), "adsb_deku", F + "obl_me", args="%d, 0x%02x" % (_tc, 1 << _v), props=me_props(_tc),
+            unwind=10, domain="ME type code %d, ME bits 6-8 = %d x all 2^48 remaining ME bits x 2^24 trailer" % (_tc, _v),
+            functions=["adsb::ME::from_reader_with_ctx (real derive expansion)"], timeout=700, kani_flags=FAST)
     if _qmask != 0xff:
         add("me_tc%02d_rest" % _tc, "adsb_deku", F + "obl_me", args="%d, 0x%02x" % (_tc, 0xff & ~_qmask), props=me_props(_tc),
             unwind=10, tier="thorough", domain="ME type code %d x remaining values of ME bits 6-8 (mask 0x%02x) x all other bits" % (_tc, 0xff & ~_qmask),
